@@ -62,6 +62,11 @@ class Steps(WorkChain):
         if self.inputs.kill == k:
             self.kill('k%d' % k)
 
+    def on_finished(self):
+        super().on_finished()
+        if self.inputs.fail == 3:          # FINISHED has been entered and the future resolved: the outcome is nevertheless this failure
+            raise UserError('f3')
+
     def s0(self):
         self._do(0)
 
